@@ -1,11 +1,48 @@
-(* C07 — marginals do not depend on the textual order (statements only). *)
-From Coq Require Import NArith QArith List Bool.
-From PL.Sem Require Import Program Sem.
+(* C07 — marginals do not depend on the textual order of the program.
+   Only statements; proofs in Sem/PermProofs.v and Sem/PermFO.v. *)
+From Coq Require Import NArith QArith List Bool Permutation.
+From PL.Sem Require Import Program Sem SemBasics PermProofs PermFO.
 Import ListNotations.
 
+(* Ground level: the probability of a query (and the Inconsistent / NotTwoValued / OutOfFuel verdicts)
+   is the same for every order of the clause instances and of the evidence. *)
+Theorem C07_perm_clauses_ground : forall cs cs' ev ev' q,
+  Permutation cs cs' -> Permutation ev ev' ->
+  prob_gen gatom gatom_eqb cs ev q = prob_gen gatom gatom_eqb cs' ev' q.
+Proof. exact (prob_gen_perm_clauses gatom gatom_eqb gatom_eqb_spec). Qed.
+Print Assumptions C07_perm_clauses_ground.
+
+(* Ground level: permuting the literals inside clause bodies (cbp = same heads, Permutation of the body). *)
+Theorem C07_perm_body_ground : forall cs cs' ev q,
+  Forall2 (cbp gatom) cs cs' -> prob_gen gatom gatom_eqb cs ev q = prob_gen gatom gatom_eqb cs' ev q.
+Proof. exact (prob_gen_perm_body gatom gatom_eqb gatom_eqb_spec). Qed.
+Print Assumptions C07_perm_body_ground.
+
+(* First-order programs: any permutation of the statements (facts, rules, ADs, queries, evidence). *)
+Theorem C07_perm_statements : forall P P' q, Permutation P P' -> prob P q = prob P' q.
+Proof. exact prob_perm_statements. Qed.
+Print Assumptions C07_perm_statements.
+
+(* ... and the reported query instances with their values are the same multiset. *)
+Theorem C07_perm_statements_answers : forall P P', Permutation P P' -> Permutation (answers P) (answers P').
+Proof. exact answers_perm_statements. Qed.
+Print Assumptions C07_perm_statements_answers.
+
+(* First-order programs: permuting the body literals of every clause (sbp). The side condition of the
+   property (negated literals after their binders) concerns the operational engine only: the
+   semantics instantiates all variables of a clause at once. *)
+Theorem C07_perm_body : forall P P' q, Forall2 sbp P P' -> prob P q = prob P' q.
+Proof. exact prob_perm_body. Qed.
+Print Assumptions C07_perm_body.
+
+(* NOT proved here (would need the pipeline model of DESIGN C01):
+   C07_model_invariant : infer_m P q = infer_m P' q. The real engine is tied by the differential check. *)
+
+(* non-vacuity: an AD with a body, negation and evidence; reversing the clause list gives the same value *)
 Example C07_example :
   let c1 := AD [(3#10, (1%N, []))] [] in
   let c2 := AD [(1#2, (2%N, [])); (1#4, (3%N, []))] [Pos (1%N, []); Neg (4%N, [])] in
   let c3 := Rule (4%N, []) [Neg (1%N, [])] in
-  gprob (mkG [c1; c2; c3] [] [((3%N, []), false)]) (2%N, []) = gprob (mkG [c3; c2; c1] [] [((3%N, []), false)]) (2%N, []).
-Proof. vm_compute. reflexivity. Qed.
+  gprob (mkG [c1; c2; c3] [] [((3%N, []), false)]) (2%N, []) = Ok (6#37) /\
+  gprob (mkG [c3; c2; c1] [] [((3%N, []), false)]) (2%N, []) = Ok (6#37).
+Proof. vm_compute. split; reflexivity. Qed.
